@@ -68,6 +68,11 @@ pub struct Opts {
     pub literal_separator: bool,
     pub backslash_escape: bool,
     pub empty_alternates: bool,
+    /// rendering only: the separator in front of a recursive wildcard is written `\/` ("a
+    /// backslash in front of a non-special character is ignored", so `\/**` is `/**`); needs
+    /// backslash_escape
+    #[serde(default)]
+    pub esc_rec_slash: bool,
 }
 
 #[derive(Clone, Debug, PartialEq, Serialize, Deserialize)]
@@ -111,8 +116,8 @@ fn render_toks(toks: &[Tok], o: &Opts, in_alt: bool, out: &mut String) {
             Tok::Any => out.push('?'),
             Tok::Star => out.push('*'),
             Tok::RecPrefix => out.push_str("**/"),
-            Tok::RecSuffix => out.push_str("/**"),
-            Tok::RecInfix => out.push_str("/**/"),
+            Tok::RecSuffix => out.push_str(if o.esc_rec_slash && o.backslash_escape { "\\/**" } else { "/**" }),
+            Tok::RecInfix => out.push_str(if o.esc_rec_slash && o.backslash_escape { "\\/**/" } else { "/**/" }),
             Tok::Class { neg, items } => {
                 out.push('[');
                 if *neg {
@@ -1327,6 +1332,7 @@ fn gen_opts(t: &mut Tape) -> Opts {
         literal_separator: t.chance(2, 5),
         backslash_escape: !t.chance(1, 5),
         empty_alternates: t.chance(1, 3),
+        esc_rec_slash: t.chance(1, 5),
     }
 }
 
@@ -1726,6 +1732,7 @@ fn shrink_candidates(c: &Case) -> Vec<Case> {
             literal_separator: false,
             backslash_escape: true,
             empty_alternates: false,
+            esc_rec_slash: false,
         };
         for k in 0..4 {
             let mut o = g.opts;
